@@ -48,3 +48,4 @@ impl Span {
 #[verifier::external_body] pub struct TaskCx { _p: u8 }
 /// the transport's error type C::Error / Box<dyn Error>: opaque.
 #[verifier::external_body] pub struct TErr { _p: u8 }
+pub assume_specification<T> [core::mem::drop::<T>] (t: T);
